@@ -352,4 +352,144 @@ theorem child_fits (p1 p2 : Genome W) (nt : List (Trait W)) (acc : MateAcc W) (i
       · exact hi1.above.2 n hn
       · exact hi2.above.2 n hn
 
+/-! ### what a successful crossover hands to the closure argument -/
+
+/-- the child is the finished accumulator of a walk that kept `AccInv`, collected genes in ascending order, and — when
+    the parents share their first gene — collected a gene with that number -/
+def MateOut (g og : Genome W) (id : Int) (c : Genome W) (needHead : Bool) : Prop :=
+  ∃ (nt : List (Trait W)) (acc : MateAcc W),
+    c = { id := id, traits := nt, nodes := acc.nodes, genes := acc.genes } ∧
+    nt.map (·.id) = g.traits.map (·.id) ∧ AccInv g og nt acc ∧ GenesSorted acc.genes ∧
+    ((needHead = true → SharedHead g og) → acc.genes ≠ []) ∧
+    (SharedHead g og → ∃ a ∈ acc.genes, ∀ x ∈ g.genes.take 1, a.inn = x.inn)
+
+omit [Scalar W] in
+theorem walkInv_start' (p1 p2 : Genome W) (nt : List (Trait W)) (nodes : List Node) (l1 l2 : List (Gene W))
+    (h : AccInv p1 p2 nt { nodes := nodes, genes := [] }) : WalkInv p1 p2 nt { nodes := nodes, genes := [] } l1 l2 :=
+  ⟨h, by simp [GenesSorted], by simp, by simp⟩
+
+omit [Scalar W] in
+theorem heads_of_shared (g og : Genome W) (hw1 : WFT g) (hw2 : WFT og) (hh : SharedHead g og) :
+    ∃ x xs y ys, g.genes = x :: xs ∧ og.genes = y :: ys ∧ x.inn = y.inn := by
+  cases hg : g.genes with
+  | nil => exact absurd hg hw1.wf.hasGene
+  | cons x xs =>
+    cases hg2 : og.genes with
+    | nil => exact absurd hg2 hw2.wf.hasGene
+    | cons y ys =>
+      refine ⟨x, xs, y, ys, rfl, rfl, ?_⟩
+      unfold SharedHead at hh; rw [hg, hg2] at hh; simpa using hh
+
+theorem mateMultipoint_out (g og : Genome W) (id : Int) (f1 f2 : W) (rs rs' : List Nat) (c : Genome W)
+    (hw1 : WFT g) (hw2 : WFT og) (h : mateMultipoint g og id f1 f2 rs = .ok (c, rs')) : MateOut g og id c false := by
+  unfold mateMultipoint at h
+  split at h
+  · cases h
+  · rename_i nt t0 nodes hpro
+    simp only at h
+    split at h
+    · cases h
+    · rename_i acc rs1 hwalk
+      simp only [Except.ok.injEq, Prod.mk.injEq] at h
+      obtain ⟨rfl, _⟩ := h
+      obtain ⟨hids, hz, hacc⟩ := matePrologue_spec g og nt t0 nodes hpro hw1 hw2
+      obtain ⟨a, b, c⟩ := multipointWalk_inv g og nt t0 _ g.genes og.genes _ rs acc rs1 hz hw1.wf.genesSorted
+        hw2.wf.genesSorted (fun _ hx => hx) (fun _ hy => hy) (walkInv_start' g og nt nodes _ _ hacc) hwalk
+      refine ⟨nt, acc, rfl, hids, a, b, fun _ => ?_, fun hh => ?_⟩
+      · apply c
+        right
+        cases hb : p1Better f1 f2 g.genes.length og.genes.length
+        · exact Or.inr ⟨rfl, hw2.wf.hasGene⟩
+        · exact Or.inl ⟨rfl, hw1.wf.hasGene⟩
+      · obtain ⟨x, xs, y, ys, e1, e2, exy⟩ := heads_of_shared g og hw1 hw2 hh
+        rw [e1, e2] at hwalk
+        obtain ⟨a', ha', ea'⟩ := multipointWalk_head g og nt t0 _ x xs y ys _ rs acc rs1 exy rfl hwalk
+        exact ⟨a', ha', fun z hz => by rw [e1] at hz; simp at hz; rw [hz]; exact ea'⟩
+
+theorem mateMultipointAvg_out (g og : Genome W) (id : Int) (f1 f2 : W) (rs rs' : List Nat) (c : Genome W)
+    (hw1 : WFT g) (hw2 : WFT og) (h : mateMultipointAvg g og id f1 f2 rs = .ok (c, rs')) : MateOut g og id c false := by
+  unfold mateMultipointAvg at h
+  split at h
+  · cases h
+  · rename_i nt t0 nodes hpro
+    simp only at h
+    split at h
+    · cases h
+    · rename_i acc rs1 hwalk
+      simp only [Except.ok.injEq, Prod.mk.injEq] at h
+      obtain ⟨rfl, _⟩ := h
+      obtain ⟨hids, hz, hacc⟩ := matePrologue_spec g og nt t0 nodes hpro hw1 hw2
+      obtain ⟨a, b, c⟩ := multipointAvgWalk_inv g og nt t0 _ g.genes og.genes _ rs acc rs1 hz hw1.wf.genesSorted
+        hw2.wf.genesSorted (fun _ hx => hx) (fun _ hy => hy) (walkInv_start' g og nt nodes _ _ hacc) hwalk
+      refine ⟨nt, acc, rfl, hids, a, b, fun _ => ?_, fun hh => ?_⟩
+      · apply c
+        right
+        cases hb : p1Better f1 f2 g.genes.length og.genes.length
+        · exact Or.inr ⟨rfl, hw2.wf.hasGene⟩
+        · exact Or.inl ⟨rfl, hw1.wf.hasGene⟩
+      · obtain ⟨x, xs, y, ys, e1, e2, exy⟩ := heads_of_shared g og hw1 hw2 hh
+        have hx : x ∈ g.genes := by rw [e1]; simp
+        have hy : y ∈ og.genes := by rw [e2]; simp
+        rw [e1, e2] at hwalk
+        obtain ⟨a', ha', ea'⟩ := multipointAvgWalk_head g og nt t0 _ x xs y ys _ rs acc rs1 exy rfl hx hy hwalk
+        exact ⟨a', ha', fun z hz => by rw [e1] at hz; simp at hz; rw [hz]; exact ea'⟩
+
+theorem mateSinglePoint_out (g og : Genome W) (id : Int) (rs rs' : List Nat) (c : Genome W)
+    (hw1 : WFT g) (hw2 : WFT og) (h : mateSinglePoint g og id rs = .ok (c, rs')) : MateOut g og id c true := by
+  unfold mateSinglePoint at h
+  split at h
+  · cases h
+  · rename_i nt t0 nodes hpro
+    simp only at h
+    split at h
+    · cases h
+    · rename_i cp rs1 _
+      split at h
+      · cases h
+      · rename_i acc rs2 hwalk
+        simp only [Except.ok.injEq, Prod.mk.injEq] at h
+        obtain ⟨rfl, _⟩ := h
+        obtain ⟨hids, hz, hacc⟩ := matePrologue_spec g og nt t0 nodes hpro hw1 hw2
+        by_cases hsh : g.genes.length < og.genes.length
+        · simp only [hsh, decide_true, ↓reduceIte] at hwalk
+          obtain ⟨a, b, c⟩ := singlePointWalk_inv g og g og (Or.inl ⟨rfl, rfl⟩) nt t0 cp g.genes og.genes 0 none _ rs1
+            acc rs2 hz hw1.wf.genesSorted hw2.wf.genesSorted (fun _ h => h) (fun _ h => h) hacc (by simp [GenesSorted])
+            (by simp) (by simp) hwalk
+          refine ⟨nt, acc, rfl, hids, a, b, fun hh => ?_, fun hh => ?_⟩
+          · obtain ⟨x, xs, y, ys, e1, e2, exy⟩ := heads_of_shared g og hw1 hw2 (hh rfl)
+            exact c (Or.inr ⟨x, xs, y, ys, e1, e2, exy⟩)
+          · obtain ⟨x, xs, y, ys, e1, e2, exy⟩ := heads_of_shared g og hw1 hw2 hh
+            have hx : x ∈ g.genes := by rw [e1]; simp
+            have hy : y ∈ og.genes := by rw [e2]; simp
+            rw [e1, e2] at hwalk
+            obtain ⟨a', ha', ea'⟩ := singlePointWalk_head g og nt t0 cp x xs y ys 0 none _ rs1 acc rs2 exy rfl hx hy hwalk
+            exact ⟨a', ha', fun z hz => by rw [e1] at hz; simp at hz; rw [hz]; exact ea'⟩
+        · simp only [hsh, decide_false, Bool.false_eq_true, ↓reduceIte] at hwalk
+          obtain ⟨a, b, c⟩ := singlePointWalk_inv g og og g (Or.inr ⟨rfl, rfl⟩) nt t0 cp og.genes g.genes 0 none _ rs1
+            acc rs2 hz hw2.wf.genesSorted hw1.wf.genesSorted (fun _ h => h) (fun _ h => h) hacc (by simp [GenesSorted])
+            (by simp) (by simp) hwalk
+          refine ⟨nt, acc, rfl, hids, a, b, fun hh => ?_, fun hh => ?_⟩
+          · obtain ⟨x, xs, y, ys, e1, e2, exy⟩ := heads_of_shared g og hw1 hw2 (hh rfl)
+            exact c (Or.inr ⟨y, ys, x, xs, e2, e1, exy.symm⟩)
+          · obtain ⟨x, xs, y, ys, e1, e2, exy⟩ := heads_of_shared g og hw1 hw2 hh
+            have hx : x ∈ g.genes := by rw [e1]; simp
+            have hy : y ∈ og.genes := by rw [e2]; simp
+            rw [e1, e2] at hwalk
+            obtain ⟨a', ha', ea'⟩ := singlePointWalk_head og g nt t0 cp y ys x xs 0 none _ rs1 acc rs2 exy.symm rfl hy hx hwalk
+            exact ⟨a', ha', fun z hz => by rw [e1] at hz; simp at hz; rw [hz, exy]; exact ea'⟩
+
+/-- **closure of a crossover inside a population**: parents that are well-formed, of one node lineage and share their
+    first gene give a child that is well-formed, retains both parents' input/bias/output nodes, shares the first gene,
+    is of the node lineage of everything its parents are, and satisfies every registry invariant both parents satisfy -/
+theorem mateOut_closed (g og : Genome W) (id : Int) (c : Genome W) (nh : Bool) (hw1 : WFT g) (hw2 : WFT og)
+    (hl : NodeLineage g og) (hh : SharedHead g og) (ho : MateOut g og id c nh) :
+    WFT c ∧ Retains og c ∧ Retains g c ∧ c.modules = [] ∧ SharedHead c g ∧ SharedHead c og ∧
+    (∀ b : Genome W, NodeLineage g b → NodeLineage og b → NodeLineage c b) ∧
+    (∀ reg : Reg W, RegInv reg g → RegInv reg og → RegInv reg c) := by
+  obtain ⟨nt, acc, rfl, hids, hacc, hsorted, hne, hhead⟩ := ho
+  obtain ⟨w, r1, r2⟩ := child_wft g og nt acc id hacc hsorted (hne (fun _ => hh)) hw1 hw2 hl hids
+  obtain ⟨f1, f2, f3⟩ := child_fits g og nt acc id hacc hsorted hw1 hw2 hl hids
+  obtain ⟨s1, s2⟩ := f1 hh (hhead hh)
+  exact ⟨w, r1, r2, rfl, s1, s2, f2, f3⟩
+
 end GoNeat.C01
